@@ -182,6 +182,17 @@ claim('C01', 'DESIGN.md 4/C01',
       'Seeded instances rank 1-3; 24 (260) judged successful solves on 256-point dyadic grids, methods krylov/hybr (+df-sane, broyden1); '
       'unconverged solves skipped; Martynov-Sarkisov excluded (recorded C09 finding).')
 
+claim('C04', 'DESIGN.md 4/C04',
+      'TLA+ specs PrismCore.tla (PermEquivariant over all permutations of rank 2-3 instances, SplitMonatomic, SplitDiblock, '
+      'ScalarPrismEq in exact rational arithmetic), ClosureDefs.tla (EnergyLinear) and Reformulate.tla (which reformulation applies to '
+      'which base system; ContentPreserved) model-checked with TLC; every exported (base system, reformulation) edge executed on real '
+      'Systems: cost_reformulated(transform(x)) = transform(cost_base(x)) for seeded trial vectors (solver independent), and for a sample '
+      'the converged pair correlations / structure factors / pmf of both systems compared',
+      'The invariances are TLC-checked identities of one cost evaluation on exact instances; conformance decides them on the real cost '
+      'function for every base pattern x every permutation / split ratio / scale, and on converged results for a sample.',
+      'Base systems: 3 ranks x 4 closure x 3 potential x 4 omega patterns with seeded densities; cost level 1e-9, solved level 1e-4 '
+      '(solves to fatol 1e-10); 10 (60) solved pairs; unconverged solves skipped.')
+
 ALL = ['C%02d' % i for i in range(1, 19)]
 
 
